@@ -63,9 +63,14 @@ def gen_history(rng: random.Random, nstruct=4, length=12, invalid_p=0.0, max_pin
     if scenario == "hub":
         nstruct = max(nstruct, 3)
         sizes = [rng.randint(2, max(2, max_pins))] + [rng.randint(1, max_pins) for _ in range(nstruct - 1)]
+    if scenario == "multilink":
+        nstruct = max(nstruct, 3)
+        sizes = [rng.randint(3, 4), rng.randint(2, 3)] + [rng.randint(1, max_pins) for _ in range(nstruct - 2)]
     comps = []
     for n in sizes:
         comps.append({"n": n, "S": m2j(rand_matrix(rng, n, n, n))})
+        if n > 0 and rng.random() < (0.4 if scenario else 0.25):
+            comps[-1]["wrap"] = True
     tr = Tracker(sizes)
     ops = []
     nexpo = [0]
@@ -102,6 +107,35 @@ def gen_history(rng: random.Random, nstruct=4, length=12, invalid_p=0.0, max_pin
 
     for i in range(min(nstruct, 2)):
         do_add(i)
+    if scenario == "multilink":
+        # structure 0 is linked to structure 1 TWICE, with a link to a third structure declared in between; then 1 is
+        # taken out (removed or cut) and the history goes on around structure 0 (cut / removed / re-wired / solved)
+        do_add(2)
+        do_connect((0, 0), (1, 0))
+        do_connect((0, 1), (2, 0))
+        do_connect((0, 2), (1, 1))
+        if rng.random() < 0.4:
+            emit(["raise"])
+            for p in tr.free():
+                if p not in tr.mapped.values():
+                    tr.mapped["auto%d_%d" % tuple(p)] = p
+            emit(["solve"])
+        do_cut(1, remove=rng.random() < 0.6)
+        follow = rng.choice(["cut0", "remove0", "cut2", "none"])
+        if follow == "cut0":
+            do_cut(0)
+            if rng.random() < 0.5:
+                do_add(0)
+        elif follow == "remove0":
+            do_cut(0, remove=True)
+        elif follow == "cut2":
+            do_cut(2)
+        emit(["raise"])
+        for p in tr.free():
+            if p not in tr.mapped.values():
+                tr.mapped["auto%d_%d" % tuple(p)] = p
+        emit(["solve"])
+        length = len(ops) + rng.randint(0, 5)
     if scenario == "hub":
         # structure 0 gets links to >= 2 distinct neighbours, is cut (or removed), and the history goes on
         # around the freed pins: bypass connections, re-adding the hub, exposing, solving
@@ -266,7 +300,15 @@ class Driver:
                 m = lk.Model(pin_dic={Pin(pname(i, k)): k for k in range(n)}, param_dic={f"q{i}": 0.25},
                              Smatrix=netlib.j2m(c["S"]))
             self.models[i] = m
-            st = Structure(model=m)
+            if c.get("wrap") and n > 0:
+                # the same component as a placed SUB-SOLVER: one structure inside, every pin exposed under its own name
+                sub = lk.Solver(name=f"W{i}")
+                inner = Structure(model=m)
+                sub.add_structure(inner)
+                sub.map_pins({pname(i, k): inner.pin[pname(i, k)] for k in range(n)})
+                st = Structure(solver=sub)
+            else:
+                st = Structure(model=m)
             self.sts[i] = st
             self.ids[id(st)] = i
         return self.sts[i]
